@@ -1,6 +1,7 @@
 import SamplyModel.Lemmas.ConvStacks
 import SamplyModel.Lemmas.ConvJit
 import SamplyModel.Lemmas.ConvHistFinal
+import SamplyModel.Lemmas.ConvElide
 import SamplyModel.Model.SvmaBias
 /-!
 # C02 — frames are attributed to the library mapped at that address at sample time
@@ -244,7 +245,8 @@ The hypotheses of `C02_history` (all decidable on the configuration and the bare
 * `hasCsRec rs = false` — no context-switch records / `sched_switch` samples (the C02 generator writes none; with
   them synthesized off-CPU samples, stamped with the begin of the sleep, enter the buffers);
 * `noSpecial rs` — no executable MMAP2 record names `//anon`, `[heap]`, `[stack]`, `[vvar]` (known finding
-  C02-special-path-not-evicting);
+  C02-special-path-not-evicting; the judge's tag compares with `ExpSample.legacySp`, which coincides with the
+  statement's reading exactly here: `C02_noSpecial_legacySp`);
 * `queuedOrdered rs` — MMAP2 and SAMPLE records are delivered in time order (known finding C02-backdated-record;
   the `layout` families are the excluded points);
 * every perf-map file loads without arithmetic panic (`C02_perf_map_load_safe_iff`; the driver prints `panic`
@@ -326,6 +328,13 @@ to a history `C02_history` speaks about. -/
 theorem C02_grammar_no_fork_onto_live (cfg : Config) (rs : List Rec) (hg : Life.grammarOk cfg.ref rs = true) :
     Life.forkOntoLive cfg.ref rs = [] :=
   forkOntoLive_of_grammar cfg.ref rs hg
+
+/-- Without special-path records the spec-side reading of samply's present mechanism for them (`legacySp`) *is* the
+statement's reading: the judge's `[special-path-not-evicting]` tag (attached only when the output equals a
+`legacySp` that differs from `frames`) is never attached to a history `C02_history` speaks about. -/
+theorem C02_noSpecial_legacySp (cfg : Config) (rs : List Rec) (h : noSpecial rs = true) :
+    ∀ e ∈ expectedSamples cfg rs, e.legacySp = e.frames :=
+  expectedSamples_go_legacySp cfg rs h [] [] []
 
 /-! ### Non-vacuity: nested, replaced and adjacent mappings -/
 def C02_exQ : List (Nat × MapAdd) :=
